@@ -234,9 +234,15 @@ func lpApply(l *fwface.NDNLPLinkService, frame []byte, measure bool, before stri
 		return
 	}
 	if r.q > 0 || r.state != before {
-		if _, _, err := spec.ReadPacket(enc.NewBufferReader(append([]byte{}, frame...))); err != nil {
+		p, _, err := spec.ReadPacket(enc.NewBufferReader(append([]byte{}, frame...)))
+		if err != nil {
 			r.v = &violation{Clause: "C04.state", Key: "undecodable frame changed link-service/dispatch state",
 				Detail: fmt.Sprintf("frame does not decode (%v) but queued=%d, state %q -> %q", err, r.q, before, r.state)}
+			return
+		}
+		if why := lpInvalidFragmentation(p); why != "" {
+			r.v = &violation{Clause: "C04.state", Key: "LP frame with invalid fragmentation fields is not dropped cleanly (reassembly state or dispatch changed)",
+				Detail: fmt.Sprintf("%s, yet queued=%d, state %q -> %q", why, r.q, before, r.state)}
 			return
 		}
 	}
@@ -517,4 +523,27 @@ func runLpHist(t task, a *acc) {
 		lpCaseViol(a, r.v, t.N, t.Hist, lpDescribe(cfg.n, t.Hist), frame)
 	}
 	a.res.Samples = append(a.res.Samples, fmt.Sprintf("%s -> queued=%d state=%q alloc=%d", lpDescribe(cfg.n, t.Hist), r.q, r.state, r.alloc))
+}
+
+// lpInvalidFragmentation: an NDNLPv2 frame whose fragmentation fields contradict each other
+// (FragCount = 0, or FragIndex >= FragCount with the protocol defaults FragIndex=0, FragCount=1)
+// cannot be part of any packet: it must be dropped without leaving anything behind.
+func lpInvalidFragmentation(p *spec.Packet) string {
+	if p == nil || p.LpPacket == nil || p.LpPacket.Sequence == nil {
+		return ""
+	}
+	fi, fc := uint64(0), uint64(1)
+	if p.LpPacket.FragIndex != nil {
+		fi = *p.LpPacket.FragIndex
+	}
+	if p.LpPacket.FragCount != nil {
+		fc = *p.LpPacket.FragCount
+	}
+	if fc == 0 {
+		return "FragCount = 0"
+	}
+	if fi >= fc {
+		return fmt.Sprintf("FragIndex %d >= FragCount %d", fi, fc)
+	}
+	return ""
 }
